@@ -31,8 +31,12 @@ Theorem C10_final_name_never_tmp_name :
 Proof. exact final_name_not_tmp. Qed.
 
 Theorem C10_csv_names_distinct :
-  forall s e : N, s < 2 ^ 64 -> e < 2 ^ 64 -> NoDup (map tmp_name Published.csv_stems ++ map (fun st : bytes => final_name st s e) Published.csv_stems).
+  forall s e : N, s < 2 ^ 64 -> e < 2 ^ 64 -> NoDup (map tmp_name SrcGen.csv_stems ++ map (fun st : bytes => final_name st s e) SrcGen.csv_stems).
 Proof. exact csv_names_distinct. Qed.
+
+Theorem C10_names_distinct_for_any_stems :
+  forall (stems : list bytes) (s e : N), NoDup stems -> Forall no_dash stems -> s < 2 ^ 64 -> e < 2 ^ 64 -> NoDup (map tmp_name stems ++ map (fun st : bytes => final_name st s e) stems).
+Proof. exact names_distinct. Qed.
 
 Print Assumptions C10_failure_no_final.
 Print Assumptions C10_success_complete.
@@ -42,3 +46,4 @@ Print Assumptions C10_input_error_aborts_before_completion.
 Print Assumptions C10_file_is_its_rows.
 Print Assumptions C10_final_name_never_tmp_name.
 Print Assumptions C10_csv_names_distinct.
+Print Assumptions C10_names_distinct_for_any_stems.
